@@ -83,6 +83,7 @@ type StrV struct {
 	C   Content
 	Off *Term
 	Len *Term
+	Max uint64 // optional: known upper bound of a symbolic Len (0 = none); lets comparisons be expanded exactly
 }
 
 // ErrV: error interface values; Code: 0 nil, 1 io.EOF, 2 io.ErrUnexpectedEOF, >=3 other
